@@ -126,9 +126,9 @@ func runFunToken(r *hx.R, n int, w *hx.W, _ []string) error {
 	for _, d := range coinDenoms {
 		if d == "ufoo" { // one coin with a 6-decimals display unit: its module-deployed ERC20 has metadata an ERC20-born mapping accepts
 			deps.App.BankKeeper.SetDenomMetaData(deps.Ctx, mkMetaDec(d, "foo", 6))
-			continue
+		} else {
+			deps.App.BankKeeper.SetDenomMetaData(deps.Ctx, mkMetaPc(d))
 		}
-		deps.App.BankKeeper.SetDenomMetaData(deps.Ctx, mkMetaPc(d))
 		for _, j := range []int{1, 2, 3, 4} {
 			fundCtx(deps.Ctx, accts[j].nibi, d, big.NewInt(100))
 		}
